@@ -248,7 +248,7 @@ static Plan gen_table(const std::string &prop, const std::string &tier, uint64_t
 		}
 		p.seti("chk_roundtrip", 1);
 		p.seti("chk_stats", 1);
-		if (r.chance(1, 4)) p.seti("initexist", 1 + r.below(3));	// 1 empty file, 2 junk, 3 valid table
+		if (r.chance(1, 4)) { p.seti("initexist", 1 + r.below(3)); p.seti("initexist_how", r.chance(1, 3) ? 0 : 1 + r.below(5)); }	// 1 empty file, 2 junk, 3 valid table; reached directly, through links, or a directory
 	} else if (prop == "C11") {
 		gen_writer_cfg(p, r, false, false, true);
 		p.set("producer", "ref");
@@ -451,13 +451,28 @@ static RunResult exec_table(const Plan &p)
 		if (ie == 2) content = "not a table, but precious";
 		if (ie == 3) { mfmt::EncOpts eo; mfmt::Entries e{ { "a", "1" }, { "b", "2" } }; content = mfmt::encode(e, eo); }
 		write_file(ep, content);
-		mtbl_writer *w = mtbl_writer_init(ep.c_str(), nullptr);
+		// the name handed to mtbl_writer_init: the file itself, a symbolic link to it (relative or absolute), a link to a
+		// link, a dangling link, or a directory - every one of them exists, none may be opened, the file must not change
+		int how = (int)p.geti("initexist_how", 0) % 6;
+		std::string name = ep, lnk = scratch_dir() + "/exist.lnk", lnk2 = scratch_dir() + "/exist.lnk2";
+		unlink(lnk.c_str()); unlink(lnk2.c_str());
+		const char *hown[] = { "an existing file", "a relative symbolic link to an existing file", "an absolute symbolic link to an existing file", "a link to a link to an existing file", "a dangling symbolic link", "a directory" };
+		if (how == 1) { if (symlink("exist.mtbl", lnk.c_str()) == 0) name = lnk; }
+		else if (how == 2) { if (symlink(ep.c_str(), lnk.c_str()) == 0) name = lnk; }
+		else if (how == 3) { if (symlink("exist.mtbl", lnk.c_str()) == 0 && symlink("exist.lnk", lnk2.c_str()) == 0) name = lnk2; }
+		else if (how == 4) { if (symlink("no-such-file.mtbl", lnk.c_str()) == 0) name = lnk; }
+		else if (how == 5) { name = scratch_dir() + "/exist.dir"; mkdir(name.c_str(), 0700); }
+		mtbl_writer *w = mtbl_writer_init(name.c_str(), nullptr);
 		if (w != nullptr) {
-			res.fail("MODEL", "INIT-EXISTING", "mtbl_writer_init opened an existing path");
+			res.fail("MODEL", "INIT-EXISTING", std::string("mtbl_writer_init opened an existing path (") + hown[how] + ")");
 			mtbl_writer_destroy(&w);
 		}
-		if (read_file(ep) != content) res.fail("MODEL", "INIT-EXISTING-modified", "existing file changed by mtbl_writer_init");
+		if (read_file(ep) != content) res.fail("MODEL", "INIT-EXISTING-modified", std::string("existing file changed by mtbl_writer_init on ") + hown[how]);
+		if (how == 4) { struct stat sb; if (stat((scratch_dir() + "/no-such-file.mtbl").c_str(), &sb) == 0) res.fail("MODEL", "INIT-EXISTING-created-through-link", "mtbl_writer_init created a file through a dangling symbolic link"); unlink((scratch_dir() + "/no-such-file.mtbl").c_str()); }
+		unlink(lnk.c_str()); unlink(lnk2.c_str());
+		if (how == 5) rmdir(name.c_str());
 		res.probes["init-on-existing-path"]++;
+		if (how) res.probes["init-on-existing-link-or-directory"]++;
 	}
 
 	// ---- produce the file
